@@ -16,6 +16,7 @@ turns into a failing input is reported as a broken correspondence.
 import os
 import vlib
 from props import _score as E2E
+from props import _xcheck as X
 
 LEVEL = "proof"
 ASSUMPTIONS = [
@@ -58,7 +59,10 @@ META = {
             "below a finalized block are direct oracles. Not generated: VBK forks resolved by BTC publications "
             "(VTBs). About half of the duels run with EnableTimeAdjustment()==true (SP parameters subclassed in the "
             "harness) and explicit ALT timestamps around the VBK ones; getKeystoneContext incl. the adjustment is the "
-            "extracted Coq ktx (proved = minimum of the adjusted heights, monotone, order independent). No axioms.",
+            "extracted Coq ktx (proved = minimum of the adjusted heights, monotone, order independent). No axioms. "
+            "A sample of 240 cases per run (every op of the model driver except the sweep checksum loop) is re-evaluated "
+            "inside Coq by vm_compute and compared with the extracted model's output, so extraction is cross-checked, "
+            "not trusted blindly (props/_xcheck.py).",
     "technique": "Coq proof (refinement invariant, induction over the keystone list; lia) + source-generated leaf "
                  "functions and parameters + extraction-based differential correspondence with direct oracles "
                  "(spec sign, antisymmetry, zero, keystone maths) and exhaustive small-scope sweeps",
@@ -321,6 +325,8 @@ def evaluate(ctx, model, harness, cases, spec, tag):
             ctx.broken.append("runner: spec model rc=%d %s" % (rc3, serr[-200:]))
     if rc1 != 0 or rc2 != 0:
         ctx.broken.append("runner(%s): model rc=%d impl rc=%d %s" % (tag, rc1, rc2, (merr + ierr)[-300:]))
+    XLOG.extend((c[0], c[1], c[2], mres.get(c[0])) for c in cases)
+    XLOG.extend((c[0], c[1], c[2], sres.get(c[0])) for c in spec)
     byid = {c[0]: c for c in cases}
     specby = {c[0]: c for c in spec}
     reported = set()
@@ -365,6 +371,7 @@ def evaluate(ctx, model, harness, cases, spec, tag):
         inp4 = os.path.join(ctx.work, tag + "-math.txt")
         write_cases(inp4, math)
         _, mm, _, _ = vlib.run_lines([model], inp4)
+        XLOG.extend((c[0], c[1], c[2], mm.get(c[0])) for c in math)
         for cid, _, _ in math:
             if mm.get(cid) != ires.get(cid):
                 report(cid, "keystone_util result differs from the mathematical definition (k*ki, floor(h/ki))",
@@ -387,6 +394,102 @@ def evaluate(ctx, model, harness, cases, spec, tag):
     for c in cases[:2] + cases[-2:]:
         ctx.sample({"case": c, "model": mres.get(c[0]), "impl": ires.get(c[0]), "spec_sign": sres.get(c[0])})
     return len(defined), len(bad)
+
+
+# ---------------------------------------------------------------- in-Coq cross-check of the extraction
+XLOG = []     # (id, op, args, answer) of every explicit case the extracted model answered in this run
+XC_REQUIRES = "Score.CInt Gen.KeystoneGen Gen.ScoreParams Score.KeystoneDefs Score.CmpDefs Score.ViewDefs"
+XC_PREAMBLE = """
+Definition xr_z (r : res Z) : list Z := match r with CInt.Ok v => [0; v] | CInt.Abort => [1] | CInt.Ub => [2] end.
+Definition xr_b (r : res bool) : list Z := match r with CInt.Ok v => [0; xc_b v] | CInt.Abort => [1] | CInt.Ub => [2] end.
+Definition xo_n (o : option nat) : list Z := match o with Some v => [1; Z.of_nat v] | None => [0] end.
+Definition xpar (ki fd : Z) (t : list Z) : list Z := [ki; fd; Z.of_nat (length t)] ++ t.
+"""
+XC_SKIPPED = ["sweep"]     # checksum loop written in OCaml around impl/spec: no single Gallina term
+
+
+def xc_res(tok, val=X.unhex):
+    """'ok:<v>' | 'abort' | 'ub' as the xr_z / xr_b encoding"""
+    return [0, val(tok[3:])] if tok.startswith("ok:") else {"abort": [1], "ub": [2]}[tok]
+
+
+def xc_term(op, a, ans):
+    """(Gallina term : list Z mirroring ocaml/Score_driver.ml, expected encoding of the driver's answer) or None"""
+    Z = lambda t: X.z(X.unhex(t))
+    zl = lambda t: X.zlist([] if t == "-" else [X.unhex(x) for x in t.split(",")])
+    sl = lambda t: X.ozlist([] if t == "-" else [None if x == "n" else X.unhex(x) for x in t.split(",")])
+    cfg = lambda fd, tb: "(Build_config %s %s)" % (Z(fd), zl(tb))
+    bit = lambda t: int(t)
+    r = ans.split()
+    if op == "cmp":
+        return "xr_z (impl %s %s %s)" % (cfg(a[0], a[1]), sl(a[4]), sl(a[5])), xc_res(ans)
+    if op == "spec":
+        prof = {"pub": "pub_profile", "inf": "inf_profile"}[a[0]]
+        return "[Z.sgn (spec %s (%s %s) (%s %s))]" % (cfg(a[1], a[2]), prof, sl(a[3]), prof, sl(a[4])), [int(ans)]
+    if op == "k2":
+        h, ki = Z(a[0]), Z(a[1])
+        t = " ++ ".join(["xr_z (highestKeystoneAtOrBefore %s %s)", "xr_z (blockHeightToKeystoneNumber %s %s)",
+                         "xr_b (isKeystone %s %s)", "xr_z (firstKeystoneAfter %s %s)",
+                         "xr_z (highestBlockWhichConnectsKeystoneToPrevious %s %s)"]) % ((h, ki) * 5)
+        return t, xc_res(r[0]) + xc_res(r[1]) + xc_res(r[2], bit) + xc_res(r[3]) + xc_res(r[4])
+    if op == "k3":
+        x = (Z(a[0]), Z(a[1]), Z(a[2]))
+        return ("xr_b (isCrossedKeystoneBoundary %s %s %s) ++ xr_b (areOnSameKeystoneInterval %s %s %s)" % (x + x),
+                xc_res(r[0], bit) + xc_res(r[1], bit))
+    if op == "gpk":
+        return "xr_z (getPreviousKeystoneHeight %s %s %s)" % (Z(a[0]), Z(a[1]), Z(a[2])), xc_res(ans)
+    if op == "m2":
+        h, ki = Z(a[0]), Z(a[1])
+        t = ("[0; m_highestKeystoneAtOrBefore %s %s; 0; m_keystoneNumber %s %s; 0; xc_b (m_isKeystone %s %s); "
+             "0; m_firstKeystoneAfter %s %s] ++ (if m_isKeystone %s %s then [0; m_highestConnecting %s %s] else [1])"
+             % ((h, ki) * 6))
+        return t, xc_res(r[0]) + xc_res(r[1]) + xc_res(r[2], bit) + xc_res(r[3]) + xc_res(r[4])
+    if op == "m3":
+        x = (Z(a[0]), Z(a[1]), Z(a[2]))
+        return "[0; xc_b (m_crossed %s %s %s); 0; xc_b (m_sameInterval %s %s %s)]" % (x + x), xc_res(r[0], bit) + xc_res(r[1], bit)
+    if op == "mgpk":
+        return "[0; m_previousKeystone %s %s %s]" % (Z(a[0]), Z(a[1]), Z(a[2])), xc_res(ans)
+    if op == "ktx":
+        hs = [] if a[3] == "-" else [int(x, 16) for x in a[3].split(",")]
+        hl = "(@nil nat)" if not hs else "[" + "; ".join("Z.to_nat %d" % h for h in hs) + "]"
+        x = (X.b(a[0] == "1"), zl(a[1]), Z(a[2]), hl)
+        on = lambda t: [0] if t == "n" else [1, int(t, 16)]
+        return "xo_n (ktx %s %s %s %s) ++ xo_n (ktx_spec %s %s %s %s)" % (x + x), on(r[0]) + on(r[1])
+    if op == "params":
+        exp = []
+        for o in (1, 5):       # "alt ki fd table vbk ki fd table"
+            tb = [] if r[o + 2] == "-" else [X.unhex(x) for x in r[o + 2].split(",")]
+            exp += [X.unhex(r[o]), X.unhex(r[o + 1]), len(tb)] + tb
+        return ("xpar alt_keystone_interval alt_finality_delay alt_fr_table ++ "
+                "xpar vbk_keystone_interval vbk_finality_delay vbk_fr_table"), exp
+    if op == "outer":
+        bb = lambda t: X.b(t == "1")
+        t = ("[fst (outer_cmp (mkO %s %s %s %s %s %s %s %s %s %s %s %s))]"
+             % (bb(a[0]), bb(a[1]), Z(a[2]), Z(a[3]), Z(a[4]), X.oz(None if a[5] == "n" else X.unhex(a[5])),
+                bb(a[6]), bb(a[7]), bb(a[8]), Z(a[9]), Z(a[10]), bb(a[11])))
+        return t, [X.unhex(ans)]
+    return None
+
+
+def run_xcheck(ctx, want=240):
+    """a deterministic sample of this run's model cases (every op of the driver except XC_SKIPPED, every outcome
+    kind) is re-evaluated inside Coq on the Gallina definitions and compared with the extracted model's answers"""
+    log = [e for e in XLOG + E2E.XLOG if e[3] is not None and e[1] not in XC_SKIPPED]
+    rng = ctx.rng.fork()
+    kind = lambda e: (e[1], e[3][:2] if e[3][:1].isalpha() else "neg" if e[3][:1] == "-" else "num")
+    core = [e for e in log if e[1] in ("cmp", "spec")]         # half of the sample: the scoring core itself
+    smp = X.sample(rng, core, want // 2, kind) + X.sample(rng, [e for e in log if e[1] not in ("cmp", "spec")], want - want // 2, kind)
+    items, hist = [], {}
+    for cid, op, args, ans in smp:
+        te = xc_term(op, args, ans)
+        if te is None:
+            ctx.broken.append("xcheck:Score: no Gallina rendering for op %s" % op)
+            continue
+        items.append(("%s/%s %s" % (cid, op, " ".join(args)[:200]), te[0], te[1]))
+        hist[op] = hist.get(op, 0) + 1
+    X.xcheck(ctx, "Score", XC_REQUIRES, items, XC_PREAMBLE)
+    ctx.cov["in_coq_ops"] = dict(sorted(hist.items()))
+    ctx.cov["in_coq_skipped_ops"] = list(XC_SKIPPED)
 
 
 def run_sweeps(ctx, model, harness):
@@ -549,6 +652,7 @@ def run(ctx):
     pairs += E2E.plan_pairs(ctx.rng.fork(), 50 if ctx.tier == "quick" else 1500)
     ne2e = run_e2e(ctx, model, e2e_harness, pairs, "main")
     n += ne2e
+    run_xcheck(ctx)
     ctx.cov["evaluations"] = n + total
     ctx.cov["distinct_nontrivial"] = len({(op, tuple(a)) for _, op, a in cs.cases if op == "cmp" and a[4] != "-" and a[5] != "-"}) + total
     ctx.cov["rule"] = ("distinct (config, view A, view B) with both views non-empty among the explicit cases, plus every pair "
